@@ -214,6 +214,74 @@ def tpl_listen(s1, k1, n1, s2, k2, n2, s3, k3, n3, s4, k4, n4, _twin=False):
         w.close(code)
 
 
+class _Line:
+    """Stands for the bytes a client sent: decode() yields the (symbolic) text of the line."""
+
+    def __init__(self, text):
+        self.text = text
+
+    def decode(self):
+        return self.text
+
+
+class _EchoParser:
+    """Answers any token list the way the real parser answers unknown text: usage/error text, then ParserError."""
+
+    def __init__(self, session):
+        self.s = session
+        self.calls = []
+
+    def parse_args(self, tokens):
+        self.calls.append(list(tokens))
+        self.s._response_buffer.write("usage")
+        raise ParserError
+
+
+def tpl_text(line, again, _twin=False):
+    """One session; a first line of arbitrary printable text (symbolic str), then a well-formed line.
+    The session's own tokenising (decode, strip, split) sits between the stream and the parser."""
+    w = World("c18.text")
+    code = 0
+    try:
+        pool = TaskPool(pool_size=2, name="p")
+        server = _Server(pool)
+        rd, wr = _Reader(w), _Writer()
+        s = ControlSession(server, rd, wr)
+        s._parser = _EchoParser(s)
+        task = w.spawn(s.listen())
+        w.settle()
+        before = _snap(pool, w)
+        w.op("text-line", len(line))
+        rd.feed(_Line(line))
+        w.settle()
+        kind, exc = task_outcome(task)
+        if kind in ("exc", "cancelled"):
+            code = 1803
+        elif kind == "ok":
+            code = 1806
+        elif len(wr.out) != 1:
+            code = 1801
+        elif wr.out[0] != b"usage\n":
+            code = 1802
+        elif _snap(pool, w) != before:
+            code = 1804
+        if not code:
+            for k in range(again):
+                rd.feed(b"num-running\n")
+                w.settle()
+            if task_outcome(task)[0] != "pending" or len(wr.out) != 1 + again:
+                code = 1801
+            rd.feed(b"")
+            w.settle()
+            if task_outcome(task)[0] != "ok":
+                code = code or 1807
+        if _twin and not code and len(line) >= 2 and len(s._parser.calls[0]) >= 2:
+            code = 77
+        return code
+    finally:
+        w.close(code)
+
+
 def families(tier):
     thorough = tier == "thorough"
     nk = len(KINDS)
@@ -228,6 +296,11 @@ def families(tier):
     else:
         pre += ["k4 == %d" % nk, "n4 == 0", "s4 == 0", "s1 == 0", "s3 == 0"]
         parts = parts_product(k1=range(nk), k2=range(nk))
+    lmax = 4 if thorough else 3
     return [Family(name="listen", fn="tpl_listen", params=P, pre=pre, parts=parts,
                    twin_pre=["k1 == 5", "k2 == 1", "k3 == 0", "s2 == 1", "s3 == 0"],
-                   twin_args=[0, 5, 0, 1, 1, 2, 0, 0, 0, 0, nk, 0])]
+                   twin_args=[0, 5, 0, 1, 1, 2, 0, 0, 0, 0, nk, 0]),
+            Family(name="text", fn="tpl_text", params=["line", "again"], types={"line": "str"},
+                   pre=["1 <= len(line) <= %d" % lmax, "all(32 <= ord(c) < 127 for c in line)", "line.strip() != ''", "0 <= again <= 1"],
+                   parts=[["len(line) == %d" % k] for k in range(1, lmax + 1)],
+                   twin_pre=[], twin_args=["a b", 0])]
